@@ -101,7 +101,8 @@ def run(ctx: core.Ctx):
         if ci % 2 == 0:     # a user-supplied, non-associative operator on both sides: only the grouping the grammar prescribes gives these degrees
             pairs = list(pairs) + [("Mean", "Mean"), ("Minimum", "Mean")][: 1 + ci % 4 // 2]
         for (c, d) in pairs:
-            E = base_engine(tw, c, d, ["1", "1/2", "1/4"], f"c06-{ci}-{c}-{d}")
+            # (every third engine: weights inside the library's comparison tolerance of 1 - 1023/1024, 2047/2048 - are weights like any other)
+            E = base_engine(tw, c, d, ["1", "1/2", "1/4"] if ci % 3 else ["1023/1024", "1/2", "2047/2048"], f"c06-{ci}-{c}-{d}")
             # a disabled variable yields 0 whatever its hedges say
             if ci % 5 == 1:
                 E["inputs"][0]["enabled"] = False
